@@ -10,6 +10,7 @@ import JominiModel.Spec.WriterArrays
 import JominiModel.Proofs.WriterArrays
 import JominiModel.Proofs.TextTapeFaithful3
 import JominiModel.Proofs.WriterGenParse
+import JominiModel.Proofs.WriterBinary
 /-
 C15 — Well-formed sequences of writer calls parse back to exactly what was written.
 Only property theorems live here; helper lemmas are in `Proofs/Writer.lean`, reference
@@ -457,6 +458,108 @@ example : TextTape.parse (run (gcallsF (.cons (.unq [97]) none
          .array 15 false, .unquoted ⟨5, [49]⟩, .unquoted ⟨3, [50]⟩, .endTok 12] false := by
   decide +kernel
 
+/-- `write_binary` forwarding: for EVERY `BinaryToken` kind and every writer state, `write_binary tok`
+does exactly what the direct call `binCall tok` does (Array → `write_array_start`, Object →
+`write_object_start`, MixedContainer → `start_mixed_mode`, Equal → `write_operator(=)`, End →
+`write_end`, Bool / U32 / U64 / I64 / I32 / Quoted / Unquoted → the typed call, F32 / F64 → the float
+write, Token → `__unknown_0x<hex>` unquoted, Rgb → `write_rgb`): same result, same error.  Hence a
+call list that uses `write_binary` anywhere behaves — final state, bytes, and what is observable
+after every call — exactly like the list with the direct calls (`unbin`), and every parse-back
+theorem above transfers to it. -/
+theorem C15_write_binary_eq_calls :
+    (∀ (s : State) (t : BinTok), step s (.binary t) = step s (binCall t)) ∧
+    (∀ (cs : List Call) (s : State), run (cs.map unbin) s = run cs s) :=
+  ⟨step_binary, run_unbin⟩
+
+/-- the flat-document parse-back for a call list written entirely through `write_binary` -/
+example (fs : List FField) (cs : List Call) (c : UInt8) (f : Nat) (h : cs.map unbin = fcalls fs)
+    (hv : ∀ x ∈ fs, x.key.Valid ∧ x.val.Valid)
+    (hb : TextTape.hasBom (run cs (State.init c f)).1.out = false) :
+    ∃ T, TextTape.parse (run cs (State.init c f)).1.out = .ok T false ∧
+      T.map TextTape.Tok.erase = TextTape.contentFlat (fs.map fun x => x.item.content) := by
+  rw [← C15_write_binary_eq_calls.2 cs, h] at hb ⊢
+  exact C15_parse_back_flat fs c f hv hb
+
+/-- `write_rgb` is `write_header("rgb")` followed by an array of `write_u32` components … -/
+theorem C15_rgb_eq_calls (s : State) (c : Rgb) :
+    step s (.rgb c) = .ok (run (.header rgbBytes :: gcallsV (rgbVal c)) s).1 :=
+  rgb_eq_calls s c
+
+/-- …so root fields whose values are colours written with `write_rgb` (3 or 4 components, any
+operator, any indent configuration with a blank indent byte) produce `key<sep>rgb {`, the
+components on one indented line, `}`, and parse back to exactly `key [op] Header(rgb) Array{end}
+r g b [a] End` per field. -/
+theorem C15_rgb_parse_back (l : List (SCall × Option Writer.Op × Rgb)) (c : UInt8) (f : Nat)
+    (hc : TextTape.isBlank c = true) (hk : ∀ x ∈ l, x.1.Valid)
+    (hb : TextTape.hasBom (run (rgbCallsF l) (State.init c f)).1.out = false) :
+    ∃ T, TextTape.parse (run (rgbCallsF l) (State.init c f)).1.out = .ok T false ∧
+      T.map TextTape.Tok.erase = TextTape.ktapeF (gcontentF (rgbFields l)) 0 := by
+  rw [run_rgbCallsF] at hb ⊢
+  exact C15_parse_back_containers (rgbFields l) c f hc (rgbFields_opened l) (rgbFields_good l hk) hb
+
+/-- `start=rgb { 10 9 8 }` then `end=rgb { 7 6 5 4 }` (the doc example of `write_rgb`) -/
+example : (run (rgbCallsF [(.unq [115], none, ⟨10, 9, 8, none⟩), (.unq [101], none, ⟨7, 6, 5, some 4⟩)])
+      (State.init 32 2)).1.out =
+    [115, 61, 114, 103, 98, 32, 123, 10, 32, 32, 49, 48, 32, 57, 32, 56, 10, 125, 10,
+     101, 61, 114, 103, 98, 32, 123, 10, 32, 32, 55, 32, 54, 32, 53, 32, 52, 10, 125] := by
+  decide +kernel
+
+/-- Mixed mode, what can be said without the two known findings: the call lists
+`key, write_array_start, elements…, start_mixed_mode, (key, write_operator, value)…, write_end`
+with scalars only (`MixedDoc`) write exactly `key={`, the elements and then the pairs on one indented
+line — pairs glued as `a=b`, `c<d`, one space in front of each key —, `}` on its own line; for every
+indent byte and factor.  PARTIAL: the parse-back half is not proved in general because the text-tape
+slice's layout model has no array that turns into key-value pairs (only the object→list form);
+the full statement is
+
+    theorem C15_mixed_parse_back (d : MixedDoc) (c f) (valid scalars, blank indent byte, no BOM) :
+      ∃ T, TextTape.parse (run d.calls (State.init c f)).1.out = .ok T false ∧ T.map erase =
+        [key, Array{end} mixed, elements…, MixedContainer, (a, Operator o, b)…, End]
+
+and it is decided on the real code by the L3 oracle of C14/C15 (and by the concrete instance below).
+Outside `MixedDoc` mixed-mode output does NOT parse back in general: a nested object with an
+operator inside the mixed container is the known finding `C14_known_mixed_nested_operator_breaks`,
+and `write_start`/objects as values after `start_mixed_mode` inherit the same stale `mixed_mode`. -/
+theorem C15_mixed_parse_back_partial (d : MixedDoc) (c : UInt8) (f : Nat) :
+    (run d.calls (State.init c f)).1.out = d.text c f :=
+  lexemes_mixed d c f
+
+/-- the mixed-container test of writer.rs (`data={ 10 d=e f<g }` here): bytes and parse-back computed -/
+example : TextTape.parse (run (MixedDoc.calls ⟨.unq [100], .unq [49, 48], [],
+      [(.unq [100], .eq, .unq [101]), (.unq [102], .lt, .unq [103])]⟩) (State.init 32 2)).1.out =
+    .ok [.unquoted ⟨18, [100]⟩, .array 10 true, .unquoted ⟨12, [49, 48]⟩, .mixedContainer, .unquoted ⟨9, [100]⟩,
+         .operator .eq, .unquoted ⟨7, [101]⟩, .unquoted ⟨5, [102]⟩, .operator .lt, .unquoted ⟨3, [103]⟩,
+         .endTok 1] false := by
+  decide +kernel
+
+/-- Floats: the model takes the text `std`'s `Display` printed as a parameter (`Call.fmt`).  For EVERY
+text of the shape `Display` produces for a finite `f32` / `f64`, with or without precision —
+optional `-`, digits, optionally `.digits`; never an exponent, whatever the magnitude — the token
+the writer emits is a well-formed unquoted scalar, the float call behaves exactly like
+`write_unquoted` of that text, and as the value of a root field it parses back to exactly that text
+as an `Unquoted` token (so every flat / nested / container parse-back theorem covers float values
+through `SCall.raw`).  The numeric clause — `to_f64` of that text within 2 ulp — stays with the L3
+oracle. -/
+theorem C15_float_text_shape (t : Bytes) (h : FloatText t) :
+    (⟨false, t⟩ : TextTape.Scal).Valid ∧
+    (∀ s, step s (.fmt t) = step s (.unquoted t)) ∧
+    (∀ (k : SCall) (c : UInt8) (f : Nat), k.Valid →
+      TextTape.hasBom (run [k.call, .fmt t] (State.init c f)).1.out = false →
+      ∃ T, TextTape.parse (run [k.call, .fmt t] (State.init c f)).1.out = .ok T false ∧
+        T.map TextTape.Tok.erase = [(k.scal.tok []).erase, .unquoted ⟨0, t⟩]) := by
+  refine ⟨floatText_valid t h, fun _ => rfl, ?_⟩
+  intro k c f hk hb
+  have hrun : run [k.call, .fmt t] (State.init c f) = run (fcalls [⟨k, none, .raw ⟨false, t⟩⟩]) (State.init c f) := rfl
+  rw [hrun] at hb ⊢
+  obtain ⟨T, hp, he⟩ := C15_parse_back_flat [⟨k, none, .raw ⟨false, t⟩⟩] c f
+    (by intro x hx; simp at hx; subst hx; exact ⟨hk, floatText_valid t h⟩) hb
+  exact ⟨T, hp, by rw [he]; rfl⟩
+
+/-- `-0.30000000000000004` has the shape -/
+example : FloatText [45, 48, 46, 51, 48, 48, 48, 48, 48, 48, 48, 48, 48, 48, 48, 48, 48, 48, 48, 48, 52] :=
+  ⟨true, [48], [46, 51, 48, 48, 48, 48, 48, 48, 48, 48, 48, 48, 48, 48, 48, 48, 48, 48, 52], rfl, by simp, by decide,
+    .inr ⟨_, rfl, by simp, by decide⟩⟩
+
 /-
 Growth theorem, NOT proved in general (full statement kept; `C15_lexemes_partial` is its flat instance):
 
@@ -473,9 +576,10 @@ Growth theorem, NOT proved in general (full statement kept; `C15_lexemes_partial
   and empty containers with every start flavour (`C15_lexemes_arrays`, `C15_parse_back_arrays`),
   the typed scalar calls in every scalar position (`C15_typed_scalars_valid`).  and the general container fragment
   (`C15_lexemes_containers`, `C15_parse_back_containers`: objects, arrays of scalars and of
-  containers, empty containers, headers, any nesting, every start flavour).  Missing:
-  `write_rgb` and `write_binary` forwarding (both are fixed call sequences of the above), floats,
-  mixed mode (`start_mixed_mode`), and the shapes the format cannot express (first element of an array
+  containers, empty containers, headers, any nesting, every start flavour).  `write_binary`
+  forwarding and `write_rgb` reduce to these (`C15_write_binary_eq_calls`, `C15_rgb_parse_back`), float
+  texts are valid scalars (`C15_float_text_shape`).  Missing: the parse-back half for mixed mode
+  (`C15_mixed_parse_back_partial`), and the shapes the format cannot express (first element of an array
   an empty container, header with empty body, header / scalar directly followed by a container
   inside an array).  Until then the clause is decided on the real code: the harness re-parses the
   output of every well-formed call list with `TextTape::from_slice` and compares it with an
